@@ -24,6 +24,7 @@ func TestWorker(t *testing.T) {
 		"C11": checkC11,
 		"C12": checkC12,
 		"C44": checkC44,
+		"C42": checkC42,
 		"C39": checkC39,
 		"C41": checkC41,
 		"C18": checkC18,
